@@ -171,4 +171,36 @@ let handle f = match f with
           Printf.sprintf "%s | %s" toks back
         | [] -> "badcase-env")
      | [] -> "badcase-env")
+  | "Q" :: li :: dot :: ctx :: rest ->
+    (* a conditional-format rule typed in configuration (li, dot): kind tag, then per threshold "F <tokens> ;;" (a formula),
+       "O ;;" (no formula) or "N ;;" (absent); answer: the formula slots of Localize.cf_rule_input_to_internal, " ;; "-separated *)
+    let (envf, body) = split_bar [] rest in
+    (match envf with
+     | n :: r ->
+       let (sh, _) = take (int_of_string n) r in
+       let env = { pe_sheets = List.map text_of_wire sh; pe_ctx_sheet = text_of_wire ctx; pe_defnames = []; pe_tables = [] } in
+       let rec entries acc cur = function
+         | ";;" :: r -> entries (List.rev cur :: acc) [] r
+         | x :: r -> entries acc (x :: cur) r
+         | [] -> List.rev acc in
+       (match body with
+        | kind :: r ->
+          let es = entries [] [] r in
+          let cv e = match e with "F" :: toks -> Some (CvFormula (List.map atom_token toks)) | "O" :: _ -> Some (CvOther Z0) | _ -> None in
+          let form e = match e with "F" :: toks -> Some (List.map atom_token toks) | _ -> None in
+          let some l = List.filter_map (fun x -> x) l in
+          let rule = match kind, es with
+            | "CI", [f; f2] -> (match form f with Some t -> CfCellIs (t, form f2) | None -> CfOther Z0)
+            | "FO", [f] -> (match form f with Some t -> CfFormula t | None -> CfOther Z0)
+            | "CS", l -> CfColorScale (some (List.map cv l))
+            | "DB", [a; b] -> CfDataBar (cv a, cv b)
+            | "IS", l -> CfIconSet (some (List.map cv l))
+            | "IR", l -> CfIconRating (some (List.map cv l))
+            | _ -> CfOther Z0 in
+          let m_act = m_display (bi dot) (zi "1") (zi "1") and m_en = m_display true (zi "1") (zi "1") in
+          (match cf_rule_input_to_internal m_act (names_for (int_of_string li)) m_en (names_for 0) env rule with
+           | Ok r' -> String.concat " ;; " (List.map (fun ts -> String.concat " " (List.map token_atom (glue false ts))) (cf_slots r'))
+           | Err -> "ERR" | Panic -> "PANIC")
+        | [] -> "badcase-rule")
+     | [] -> "badcase-env")
   | _ -> "badcase"
